@@ -32,6 +32,20 @@ func init() {
 			return 0, 0, false
 		}
 		counts["clk"] = k + 1
+		if dbgLevel >= 1 {
+			var pcs [6]uintptr
+			n := runtime.Callers(2, pcs[:])
+			fr := runtime.CallersFrames(pcs[:n])
+			var names []string
+			for {
+				f, more := fr.Next()
+				names = append(names, f.Function)
+				if !more {
+					break
+				}
+			}
+			println("native clock", k, strings.Join(names, " <- "))
+		}
 		return int64(w), int64(model[fmt.Sprintf("clk.mono#%d", k)]), true
 	}
 }
